@@ -320,6 +320,20 @@ def _edits(struct):
         for b in vals:
             if a != b:
                 out.append(("rauw", a, b))
+    # moves that change no dependency (a node is put after / before another node of its own graph, possibly exactly
+    # where it already is): the second sort must still produce a valid order of exactly the same nodes
+    groups = [[f"m{i}" for i in range(len(struct["main"]))]] + ([[f"b{j}" for j in range(len(struct["body"][1]))]] if struct.get("body") else [])
+    for grp in groups:
+        for a in grp:
+            for b in grp:
+                if a != b:
+                    for how in ("insert_after", "insert_before", "node_append", "node_prepend"):
+                        out.append(("move", how, a, b))
+            out.append(("move", "graph_append", None, a))
+    if struct.get("body"):
+        # the body is taken off its node and put back (by assignment) after it was sorted on its own
+        out.append(("reattach_body", "assign"))
+        out.append(("reattach_body", "add"))
     return out
 
 
@@ -379,6 +393,28 @@ def check_history(struct, edit, via="graph"):
             nodes["p_f"] = pnode
         elif edit[0] == "replace_input":
             nodes[edit[1]].replace_input_with(0, val(edit[2]))
+        elif edit[0] == "move":
+            _, how, a, b = edit
+            g = nodes[b].graph
+            if how == "insert_after":
+                g.insert_after(nodes[a], nodes[b])
+            elif how == "insert_before":
+                g.insert_before(nodes[a], nodes[b])
+            elif how == "node_append":
+                nodes[a].append(nodes[b])
+            elif how == "node_prepend":
+                nodes[a].prepend(nodes[b])
+            else:
+                g.append(nodes[b])
+        elif edit[0] == "reattach_body":
+            hostn = nodes[hosts["body"]]
+            del hostn.attributes["body"]
+            graphs["main"].sort()  # sorted while the body is away: the host has no nested dependencies now
+            graphs["body"].sort()  # ... and the body is sorted on its own
+            if edit[1] == "assign":
+                hostn.attributes["body"] = ir.AttrGraph("body", graphs["body"])
+            else:
+                hostn.attributes.add(ir.AttrGraph("body", graphs["body"]))
         else:
             val(edit[1]).replace_all_uses_with(val(edit[2]))
     except Exception:  # noqa: BLE001  the edit itself is rejected: nothing to check
